@@ -9,7 +9,7 @@
 (*          r of c; exactly the cells with mean >= threshold; ...)         *)
 (*   Impl : the algorithm as the code performs it, one action per stage.   *)
 (***************************************************************************)
-EXTENDS Integers, Sequences, FiniteSets, TLC, Json
+EXTENDS SequencesExt, Integers, Sequences, FiniteSets, TLC, Json
 
 CONSTANTS MaxN,        \* circle: array sizes 1..MaxN
           MaxM,        \* sub-apertures: all 0/1 masks for sizes <= MaxAllMask, circle masks up to MaxM
@@ -105,15 +105,23 @@ Lo(k, M, S) == RoundHE(k*M, S)
 
 Thresholds == { <<0,1>>, <<1,4>>, <<1,3>>, <<1,2>>, <<2,3>>, <<3,4>>, <<1,1>> }
 
-CellCount(mask, M, S, cx, cy) ==   \* number of lit pixels and number of pixels of cell (cx, cy)
+\* grey masks (partially transmitting pixels) hold values 0, 1, 2 meaning transmission 0, 1/2, 1; they travel with a threshold
+\* written <<a, b, "grey">>
+IsGrey(th) == Len(th) = 3 /\ th[3] = "grey"
+RECURSIVE SumSeq(_)
+SumSeq(q) == IF q = <<>> THEN 0 ELSE Head(q) + SumSeq(Tail(q))
+CellCountG(mask, M, S, cx, cy, grey) ==   \* <<mean numerator, mean denominator>> of cell (cx, cy)
     LET rows == Lo(cx, M, S) .. (Lo(cx+1, M, S) - 1)
         cols == Lo(cy, M, S) .. (Lo(cy+1, M, S) - 1)
-    IN  << Cardinality({p \in rows \X cols : mask[p] = 1}), Cardinality(rows \X cols) >>
+        cells == rows \X cols
+    IN  IF grey THEN << SumSeq([k \in 1..Cardinality(cells) |-> mask[SetToSeq(cells)[k]]]), 2 * Cardinality(cells) >>
+        ELSE << Cardinality({p \in cells : mask[p] = 1}), Cardinality(cells) >>
+CellCount(mask, M, S, cx, cy) == CellCountG(mask, M, S, cx, cy, FALSE)
 
 \* Def: exactly the cells whose mean is at least the threshold
 ActiveDef(mask, M, S, th) ==
     { c \in (0..S-1) \X (0..S-1) :
-        LET cc == CellCount(mask, M, S, c[1], c[2])
+        LET cc == CellCountG(mask, M, S, c[1], c[2], IsGrey(th))
         IN  cc[2] > 0 /\ cc[1] * th[2] >= th[1] * cc[2] }
 
 AllMasks(M) == [Pix(M) -> {0, 1}]
@@ -125,7 +133,10 @@ MasksFor(M) == IF M <= MaxAllMask THEN AllMasks(M) ELSE CircleMasks(M)
 \* pixels (the first k pixels in raster order) - the cells that sit exactly on the threshold must be selected.
 \* Such a threshold is written <<k, area, "attained">>.
 StairMasks(M) == { [p \in Pix(M) |-> IF p[1] * M + p[2] < k THEN 1 ELSE 0] : k \in 0..(M*M) }
-IsAttained(th) == Len(th) = 3
+IsAttained(th) == Len(th) = 3 /\ th[3] = "attained"
+\* anti-aliased pupils: full transmission inside radius rq/4, half transmission in the next half pixel; and every grey 2x2 mask
+GreyMasks(M) == { [p \in Pix(M) |-> CircleDef(M, rq, 0, 0, "middle")[p] + CircleDef(M, rq + 2, 0, 0, "middle")[p]] : rq \in {2*M - 2, 2*M} }
+                \cup (IF M <= 2 THEN [Pix(M) -> {0, 1, 2}] ELSE {})
 SubapCfgs ==
     UNION { { [M |-> M, S |-> S, th |-> th, mask |-> m] : S \in 1..M, th \in Thresholds, m \in MasksFor(M) } :
             M \in 1..MaxM }
@@ -138,7 +149,7 @@ SInit(c) ==
 \* one iteration of the double loop  (wfslib.py:30-41)
 LoopBody ==
     /\ mode = "subaps" /\ pc = "loop"
-    /\ LET cc == CellCount(cfg.mask, cfg.M, cfg.S, x, y)
+    /\ LET cc == CellCountG(cfg.mask, cfg.M, cfg.S, x, y, IsGrey(cfg.th))
            act == cc[1] * cfg.th[2] >= cfg.th[1] * cc[2]
        IN  out' = IF act THEN [coords |-> Append(out.coords, <<x, y>>),
                                fills  |-> Append(out.fills, cc)]
@@ -183,6 +194,7 @@ Init ==
        \/ \E M \in 1..MaxM : \E S \in 1..M, th \in Thresholds : mode = "subaps" /\ cfg = [M |-> M, S |-> S, th |-> th]
        \/ \E M \in 1..MaxM : \E S \in 1..M : M % S = 0 /\ \E k \in 0..((M \div S) * (M \div S)) :
              mode = "subaps" /\ cfg = [M |-> M, S |-> S, th |-> <<k, (M \div S) * (M \div S), "attained">>]
+       \/ \E M \in 1..MaxM : \E S \in 1..M, th \in Thresholds : mode = "subaps" /\ cfg = [M |-> M, S |-> S, th |-> <<th[1], th[2], "grey">>]
        \/ \E M \in 1..MaxAllMask : mode = "scatter" /\ cfg = [M |-> M]
 
 ChooseCircle ==
@@ -193,7 +205,7 @@ ChooseCircle ==
 
 ChooseSubaps ==
     /\ mode = "subaps" /\ pc = "choose"
-    /\ \E m \in (IF IsAttained(cfg.th) THEN StairMasks(cfg.M) ELSE MasksFor(cfg.M)) : cfg' = [M |-> cfg.M, S |-> cfg.S, th |-> cfg.th, mask |-> m]
+    /\ \E m \in (IF IsAttained(cfg.th) THEN StairMasks(cfg.M) ELSE IF IsGrey(cfg.th) THEN GreyMasks(cfg.M) ELSE MasksFor(cfg.M)) : cfg' = [M |-> cfg.M, S |-> cfg.S, th |-> cfg.th, mask |-> m]
     /\ pc' = "loop" /\ x' = 0 /\ y' = 0 /\ out' = [coords |-> <<>>, fills |-> <<>>]
     /\ UNCHANGED mode
 
@@ -257,7 +269,7 @@ ExactlyThresholdCells == Done("subaps") =>
 
 MonotoneInThreshold == Done("subaps") =>
     \A t2 \in Thresholds : t2[1] * cfg.th[2] >= cfg.th[1] * t2[2] =>
-        ActiveDef(cfg.mask, cfg.M, cfg.S, t2) \subseteq SeqToSet(out.coords)
+        ActiveDef(cfg.mask, cfg.M, cfg.S, IF IsGrey(cfg.th) THEN <<t2[1], t2[2], "grey">> ELSE t2) \subseteq SeqToSet(out.coords)
 
 \* when S | M the fill factor recomputed from the returned coordinate (x*M/S) and spacing M/S is the same
 FillsAgree == (Done("subaps") /\ cfg.M % cfg.S = 0) =>
@@ -267,7 +279,9 @@ FillsAgree == (Done("subaps") /\ cfg.M % cfg.S = 0) =>
             y1 == out.coords[i][2] * sp
             rows == x1 .. (x1 + sp - 1)
             cols == y1 .. (y1 + sp - 1)
-        IN  out.fills[i] = << Cardinality({p \in rows \X cols : cfg.mask[p] = 1}), sp * sp >>
+            cells == rows \X cols
+        IN  out.fills[i] = IF IsGrey(cfg.th) THEN << SumSeq([k \in 1..Cardinality(cells) |-> cfg.mask[SetToSeq(cells)[k]]]), 2 * sp * sp >>
+                           ELSE << Cardinality({p \in cells : cfg.mask[p] = 1}), sp * sp >>
 
 GatherAfterScatter == Done("scatter") =>
     /\ Gather(out.map, cfg.mask, cfg.M) = [k \in 1..out.n |-> k]
